@@ -366,7 +366,10 @@ CHECKS["C13"] = {
             "value read == the selected target's value; for TS the delta equals the value; for TSS/TSD the canonical delta (capture_delta) applied to the "
             "checker's copy of what the consumer held must give the value read, nothing is reported removed that was not held and nothing added that "
             "was held. While the reference designates a target that holds no value everything is a don't-care and the next evaluation re-bases the "
-            "copy. non-trivial = >= 2 retargets or a retarget coinciding with a tick.",
+            "copy. non-trivial = >= 2 retargets or a retarget coinciding with a tick. "
+            "Gate program: a consumer that requires the reference-read TS input to be valid and has a second, directly wired active input; every "
+            "selector x target x second-input history (T=4): while the designated target holds no value the consumer does not run on the other input's "
+            "tick (or still reads the previous valid target's value), and whenever it runs it reads a value some target really holds.",
     "bounds": {"quick": "T=4 (TS), T=3 with 4-symbol alphabets and T=4 with 3-symbol alphabets (TSS/TSD)", "thorough": "T=5 / T=4 / T=5"},
     "min_counters": {"quick": {"nontrivial": 500000, "ref.cases_nd": 20000}},
     "assumptions": COMMON_ASSUMPTIONS + ["Retarget to a target that holds no value and scalar unbind are don't-cares (the statement covers valid targets).",
